@@ -8,8 +8,8 @@ namespace Librfn.Sched.L
 open Librfn.Sched Librfn.Model.Fibre
 
 theorem notAfter_shift (a b c : BitVec 32) : notAfter (a + c) (b + c) = notAfter a b := by
-  unfold notAfter Librfn.Gen.Util.cyclecmp32
-  simp only
+  unfold notAfter
+  rw [cyclecmp32_tie, cyclecmp32_tie]
   have : (a + c) - (b + c) = a - b := by bv_omega
   rw [this]
 
